@@ -17,6 +17,14 @@ IDENTITY_CALLS = {'numpy.array', 'numpy.asarray', 'numpy.asanyarray', 'numpy.squ
                   'emd.support.ensure_1d_with_singleton', 'emd.support.ensure_2d', 'emd.support.ensure_vector'}
 
 
+CALL_ALIASES = {'numpy.absolute': 'numpy.abs', 'builtins.abs': 'numpy.abs', 'numpy.fabs': 'numpy.abs',
+                'builtins.sum': 'numpy.sum', 'builtins.max': 'numpy.max', 'builtins.min': 'numpy.min',
+                'builtins.any': 'numpy.any', 'builtins.all': 'numpy.all', 'numpy.alltrue': 'numpy.all',
+                'numpy.amax': 'numpy.max', 'numpy.amin': 'numpy.min'}
+DROPPED_KWARGS = {('numpy.log10', 'where'), ('numpy.log', 'where')}
+REDUCTION_METHODS = {'sum', 'mean', 'std', 'var', 'max', 'min', 'any', 'all', 'prod', 'cumsum'}
+
+
 class Poly:
     __slots__ = ('m',)
 
@@ -147,11 +155,11 @@ class Algebra:
 
     # ------------------------------------------------------------------ atoms
     def atom(self, term):
-        key = self.canon(term)
+        key = self.canon(term, top_arith=False)
         self.atom_terms.setdefault(key, term)
         return Poly.atom(key)
 
-    def canon(self, t):
+    def canon(self, t, top_arith=True):
         """Canonical string of a term, with arithmetic children normalised."""
         if not isinstance(t, tuple) or not t:
             return repr(t)
@@ -165,7 +173,7 @@ class Algebra:
             return '$' + t[1]
         if k == 'ref':
             return t[1]
-        if k in ('bin', 'un') or self._is_arith_call(t):
+        if top_arith and (k in ('bin', 'un') or self._is_arith_call(t)):
             p = self.poly(t)
             if p is not None:
                 sm = p.single_monomial()
@@ -173,11 +181,15 @@ class Algebra:
                     return sm[0][0][0]
                 return 'P{%s}' % p
         if k == 'call':
-            a = [self.canon(x) for x in t[2]] + ['%s=%s' % (n, self.canon(v)) for n, v in t[3]]
-            return '%s(%s)' % (t[1], ','.join(a))
+            name = CALL_ALIASES.get(t[1], t[1])
+            kws = [(n, v) for n, v in t[3] if (name, n) not in DROPPED_KWARGS]
+            a = [self.canon(x) for x in t[2]] + ['%s=%s' % (n, self.canon(v)) for n, v in kws]
+            return '%s(%s)' % (name, ','.join(a))
         if k == 'meth':
             if t[1] in IDENTITY_METHODS:
                 return self.canon(t[2])
+            if t[1] in REDUCTION_METHODS:
+                return self.canon(('call', 'numpy.' + t[1], (t[2],) + tuple(t[3]), t[4]))
             a = [self.canon(x) for x in t[3]] + ['%s=%s' % (n, self.canon(v)) for n, v in t[4]]
             return '%s.%s(%s)' % (self.canon(t[2]), t[1], ','.join(a))
         if k == 'sub':
@@ -193,7 +205,10 @@ class Algebra:
         if k == 'slice':
             return ':'.join(self.canon(x) for x in t[1:4])
         if k == 'cmp':
-            return '(%s%s%s)' % (self.canon(t[2]), t[1], self.canon(t[3]))
+            op, a, b = t[1], t[2], t[3]
+            if op in ('>', '>='):
+                op, a, b = {'>': '<', '>=': '<='}[op], b, a
+            return '(%s%s%s)' % (self.canon(a), op, self.canon(b))
         if k in ('and', 'or'):
             return '(%s)' % (' %s ' % k).join(self.canon(x) for x in t[1])
         if k == 'comp':
